@@ -43,7 +43,12 @@ def work(h, cases):
     return [P.replay_case(h, c) for c in cases]
 
 
-def run(pid, tier, families, t0, extra_assume=(), level="model_checking", strict=True):
+def work_prefix(h, cases):
+    return [P.replay_prefixes(h, c) for c in cases]
+
+
+def run(pid, tier, families, t0, extra_assume=(), level="model_checking", strict=True, worker=None, rule=None,
+        text=None):
     rep = C.Reporter(pid)
     hp = C.ensure_harness()
     gd = C.gen_dir(pid.lower())
@@ -78,7 +83,7 @@ def run(pid, tier, families, t0, extra_assume=(), level="model_checking", strict
         states += r.distinct or r.generated
         trans += r.generated
         C.log("[%s] %s: %d states, %d cases, %.0fs" % (pid, name, r.distinct or r.generated, len(cases), r.wall))
-        res = C.proc_map(hp, work, cases, chunk=300)
+        res = C.proc_map(hp, worker or work, cases, chunk=300)
         for c, x in zip(cases, res):
             stats["cases"] += 1
             st = x["status"]
@@ -101,7 +106,7 @@ def run(pid, tier, families, t0, extra_assume=(), level="model_checking", strict
         "states": states, "transitions": trans,
         "traces_validated_against_impl": stats["ok"] + stats.get("known", 0),
         "evaluations": stats["cases"], "distinct_nontrivial": len(nontriv),
-        "rule": "programs = behaviours of Gen.tla (typed by evaluation against Eval.tla, bounded ill-typed budget); each is "
+        "rule": rule or "programs = behaviours of Gen.tla (typed by evaluation against Eval.tla, bounded ill-typed budget); each is "
                 "checked in the model (Agreement of VM(Translate(p)) with Eval(p), NoPanic, CleanAtEnd, PrefixStable) and "
                 "replayed: rendered text must parse back to the generated AST, FileBuilder::eval_string must give the "
                 "predicted outcome and values, AST::translate must emit the predicted op sequence with the predicted "
